@@ -88,9 +88,8 @@ func (m *vpC27Model) legal(kind string, signer, payee crypto.Key) (bool, string)
 		}
 		return true, ""
 	case "remove":
-		if len(pl) > 0 {
-			return false, "a node is pledging"
-		}
+		// the statement asks nothing about a pledge pending elsewhere; the writers
+		// happen to refuse a removal while the pledge is the newest record
 		r, ok := latest[signer]
 		if !ok || r.State != common.NodeStateAccepted {
 			return false, "node is not currently accepted"
@@ -207,9 +206,9 @@ var vpC27Gaps = []uint64{1, 2, uint64(time.Second), uint64(30 * time.Second), ui
 	uint64(24 * time.Hour), uint64(7*24*time.Hour) - 1, uint64(7*24*time.Hour) + 1, uint64(8 * 24 * time.Hour)}
 
 func TestVP_C27_lifecycle(t *testing.T) {
-	c := kit.New(t, "C27", "rapid T.Repeat on a genesis-loaded store (7 accepted nodes, reset per case): pledge/accept/cancel/remove written directly with writeNodePledge/Accept/Cancel/Remove inside one Badger transaction each; signer and payee drawn from the genesis keys plus 12 pool keys (reuse likely), timestamps from a frontier advancing by gaps from {1 ns .. 8 d incl. 12 h +-1, 7 d +-1}; a third of the ops the machine forbids and of the removals are backdated by < 12 h (frontier-1ns/-1s/-1h/-12h+2, just below or strictly between the two newest records; an allowed removal never below its own node's latest record), transaction hashes fresh or reused from earlier records; about half of the ops are built to be legal in the reference machine, the rest are arbitrary (accept without pledge, second pledge, wrong payee, reused signer, remove of pledging/removed/unknown node ...). Oracle: an op the store recorded must be legal in the lifecycle machine written from the statement; after every op ReadAllNodes(inf,true) equals the recorded history in (timestamp, signer) order and ReadAllNodes(thr,false) (thr = inf and drawn thresholds) reports every signer once with its latest record; legal ops that are rejected are only counted; non-trivial = history with a pledge->accept->remove cycle of one node and >=2 rejected ops; distinct by op trace")
-	c.Require("backdated", "backdated-below-newest-record", "illegal:resolve-again", "illegal:remove-again", "cycle", "rejected-illegal", "pledge", "accept", "cancel", "remove", "illegal:wrong-payee", "illegal:accept-without-pledge", "illegal:second-pledge", "illegal:reused-signer", "illegal:remove-while-pledging", "illegal:remove-not-accepted", "pledge-with-latest-tx", "threshold-read")
-	c.Assume("pledge/accept/cancel the machine allows carry a timestamp above every recorded one (the kernel's operation lock and accept window guarantee it); no timestamp lies 12 h or more below the newest record (the writers' look-ahead)", "a pledge whose transaction hash equals the transaction of a superseded (non-latest) record is not judged: payload hashes are unique in the kernel, the store only checks latest records")
+	c := kit.New(t, "C27", "rapid T.Repeat on a genesis-loaded store (7 accepted nodes, reset per case): pledge/accept/cancel/remove written directly with writeNodePledge/Accept/Cancel/Remove inside one Badger transaction each; signer and payee drawn from the genesis keys plus 12 pool keys (reuse likely), timestamps from a frontier advancing by gaps from {1 ns .. 8 d incl. 12 h +-1, 7 d +-1}; a third of the ops the machine forbids, of the removals and of the allowed pledges are backdated by < 12 h (frontier-1ns/-1s/-1h/-12h+2, just below or strictly between the two newest records; an allowed removal never below its own node's latest record), transaction hashes fresh or reused from earlier records; about half of the ops are built to be legal in the reference machine, the rest are arbitrary (accept without pledge, second pledge, wrong payee, reused signer, remove of pledging/removed/unknown node ...). Oracle: an op the store recorded must be legal in the lifecycle machine written from the statement; after every op ReadAllNodes(inf,true) equals the recorded history in (timestamp, signer) order and ReadAllNodes(thr,false) (thr = inf and drawn thresholds) reports every signer once with its latest record; legal ops that are rejected are only counted; non-trivial = history with a pledge->accept->remove cycle of one node and >=2 rejected ops; distinct by op trace")
+	c.Require("backdated", "backdated-below-newest-record", "illegal:resolve-again", "illegal:remove-again", "cycle", "rejected-illegal", "pledge", "accept", "cancel", "remove", "illegal:wrong-payee", "illegal:accept-without-pledge", "illegal:second-pledge", "illegal:reused-signer", "remove-offered-while-pledging", "backdated-allowed-pledge", "illegal:remove-not-accepted", "pledge-with-latest-tx", "threshold-read")
+	c.Assume("accept/cancel the machine allows carry a timestamp above every recorded one (the kernel's operation lock and accept window guarantee it); no timestamp lies 12 h or more below the newest record (the writers' look-ahead)", "a pledge whose transaction hash equals the transaction of a superseded (non-latest) record is not judged: payload hashes are unique in the kernel, the store only checks latest records")
 	kit.SetChecks(kit.N(300, 15000))
 	kit.SetSteps(24)
 	sh := vpC27Open(t)
@@ -358,7 +357,10 @@ func TestVP_C27_lifecycle(t *testing.T) {
 			frontier := now
 			now += rapid.SampledFrom(vpC27Gaps).Draw(t, "gap")
 			ts := now
-			if (!ok || kind == "remove") && rapid.IntRange(0, 2).Draw(t, "backdate") == 0 {
+			if len(m.pledging()) > 0 && kind == "remove" {
+				cls["remove-offered-while-pledging"] = true
+			}
+			if (!ok || kind == "remove" || kind == "pledge") && rapid.IntRange(0, 2).Draw(t, "backdate") == 0 {
 				newest := m.sorted(^uint64(0))
 				top := newest[len(newest)-1].Ts
 				cands := []uint64{frontier - 1, frontier - uint64(time.Second), frontier - uint64(time.Hour), frontier - uint64(12*time.Hour) + 2, top - 1, top - 2, top - uint64(time.Minute)}
@@ -373,6 +375,9 @@ func TestVP_C27_lifecycle(t *testing.T) {
 				if b > epoch && b < frontier && frontier-b <= uint64(12*time.Hour)-2 && (!ok || !has || b > own.Ts) {
 					ts, now = b, frontier
 					cls["backdated"] = true
+					if ok && kind == "pledge" {
+						cls["backdated-allowed-pledge"] = true
+					}
 					if b < top {
 						cls["backdated-below-newest-record"] = true
 					}
@@ -437,8 +442,6 @@ func TestVP_C27_lifecycle(t *testing.T) {
 						cls["illegal:second-pledge"] = true
 					case "signer key already used by a node":
 						cls["illegal:reused-signer"] = true
-					case "a node is pledging":
-						cls["illegal:remove-while-pledging"] = true
 					case "node is not currently accepted":
 						cls["illegal:remove-not-accepted"] = true
 					}
